@@ -9,6 +9,7 @@ from oracle import models as M
 
 ID = "C15"
 TITLE = "mutation.compound_step visits every (haplotype copy, SNV) exactly once for any n_base (incl. > 127); random_breaks partitions the SNV range; SNVs are fixed iff their single-SNV homozygous posterior reaches the threshold and are restored in the right column"
+TECHNIQUE = 'symbolic execution with recording stubs: solver-chosen shuffles/choices, fixed-width store tracking, symbolic homozygosity probabilities and threshold (z3); homozygosity screen against a symbolic single-SNV posterior oracle'
 ENCODED = ["mchap.assemble.mutation.compound_step", "mchap.assemble.structural.random_breaks", "mchap.assemble.mcmc.DenovoMCMC._mcmc",
            "mchap.assemble.mcmc._homozygosity_probabilities", "mchap.assemble.snpcalling.snp_posterior", "mchap.assemble.structural.compound_step"]
 STUBS = ["base_step / interval_step -> recorders", "np.random.shuffle -> identity, reversal, or a solver-chosen transposition (coverage is permutation invariant)",
